@@ -857,6 +857,23 @@ func (s *sim) step(ev string) {
 		s.w.Sleep(tickStep)
 		s.drain()
 		s.checkAddr("", false, nil)
+	case "keep": // 600 ms later one more genuine newest record arrives from a (traffic on the unvalidated path)
+		s.w.Sleep(tickStep)
+		s.drain()
+		s.checkAddr("", false, nil)
+		if d := s.pWrite(); d != nil {
+			s.deliver(a, d, true)
+			s.lastDlv = d
+		}
+	case "respold": // after a further 600 ms the answer to the EARLIEST unanswered challenge to a arrives from a
+		if ch := s.takePending(a); ch != nil {
+			s.w.Sleep(tickStep)
+			s.drain()
+			s.checkAddr("", false, nil)
+			if d := s.answer(ch); d != nil {
+				s.deliver(a, d, true)
+			}
+		}
 	case "write": // V's application writes: where does it go?
 		s.payN++
 		pay := []byte(fmt.Sprintf("v%d", s.payN))
